@@ -144,7 +144,7 @@ PROPS = {
         "runs": [
             {"family": "hist", "flags": ["--conflicts"], "quick": {"cases": 250, "max_len": 30}, "thorough": {"cases": 12000, "max_len": 30}},
         ],
-        "judge_preds": ["orderindep", "converged", "invariant"],
+        "judge_preds": ["orderindep", "winner", "converged", "invariant"],
         "nontrivial": lambda imp, ops: sum(1 for l in ops if l.startswith("C ") and " update 1 " in l) >= 2,
         "rule": "conflict groups: 2-3 replicas on a common synchronized base (task 1 everywhere, task 2 nowhere, task 3 sometimes) each make "
                 "1-3 concurrent changes (updates over 2 properties x 4 values incl. removal x 4 timestamps with ties, deletes, creates), "
